@@ -108,9 +108,11 @@ fn input_of(req: &Request) -> String {
     if req.modules.len() == 1 {
         req.modules[0].1.clone()
     } else {
+        // the modules of `core` are only attached to requests that use `#mod`; a test's own `math.capy` is part of the input
+        let uses_core = req.modules.iter().any(|(n, _)| n.starts_with("core/"));
         req.modules
             .iter()
-            .filter(|(n, _)| !n.starts_with("core/") && !is_core_name(n))
+            .filter(|(n, _)| !n.starts_with("core/") && !(uses_core && is_core_name(n)))
             .map(|(n, t)| format!("#- {n}\n{t}"))
             .collect::<Vec<_>>()
             .join("\n")
